@@ -508,6 +508,296 @@ fn run_region_xen(_t: &mut Tape, _cx: &mut Cx) -> Result<(), String> {
     Ok(())
 }
 
+/// xen build: derivation chains over regions that have no stable host pointer (grant regions
+/// mapped on demand) and, for comparison, the other emulated kinds. Extents are tracked
+/// logically (offset into the region, by the harness' own arithmetic) and judged on content:
+/// the bytes seen through the accessor's guard are the device bytes of exactly that range, a
+/// write through the accessor changes exactly that range of the device, nothing else.
+#[cfg(feature = "xen")]
+mod logical {
+    use super::*;
+    use crate::xen_emul::{build as xbuild, reset, Kind as XKind, XenRegion};
+
+    pub struct LEnv<'a> {
+        pub xr: &'a XenRegion<()>,
+        pub depth_reached: usize,
+    }
+
+    fn lex(env: &LEnv, s: &VolatileSlice<'_, ()>, lo: usize, what: &str, t: &mut Tape) -> Result<(), String> {
+        let len = s.len();
+        let size = env.xr.size;
+        ensure!(lo as u128 + len as u128 <= size as u128, "{}: accessor covers region[{:#x}..+{:#x}], the region has {:#x} bytes", what, lo, len, size);
+        let before = env.xr.raw_read();
+        let n = len.min(9000);
+        {
+            let g = s.ptr_guard();
+            ensure!(g.len() == len, "{}: guard of {} bytes for an accessor of {} bytes", what, g.len(), len);
+            if n > 0 {
+                // SAFETY: the guard promises `len` readable bytes at as_ptr().
+                let via: Vec<u8> = (0..n).map(|i| unsafe { g.as_ptr().add(i).read_volatile() }).collect();
+                ensure!(via[..] == before[lo..lo + n], "{}: the guard of the accessor does not designate region bytes {:#x}..{:#x}", what, lo, lo + n);
+            }
+        }
+        let seed = t.word() as u8;
+        let pat: Vec<u8> = (0..n).map(|i| (i as u8).wrapping_mul(13).wrapping_add(seed) | 1).collect();
+        if n > 0 {
+            s.write_slice(&pat, 0).map_err(|err| format!("{}: write_slice(len {}) through the new accessor failed: {:?}", what, n, err))?;
+            let mut back = vec![0u8; n];
+            s.read_slice(&mut back, 0).map_err(|err| format!("{}: read_slice through the new accessor failed: {:?}", what, err))?;
+            ensure!(back == pat, "{}: data written through the accessor is not what is read back", what);
+            let last: u8 = s.read_obj(n - 1).map_err(|err| format!("{}: read_obj(last) failed: {:?}", what, err))?;
+            ensure!(last == pat[n - 1], "{}: last byte mismatch", what);
+        }
+        ensure!(s.read_obj::<u8>(len).is_err(), "{}: read_obj at offset len succeeded", what);
+        ensure!(s.write_obj(0u8, len).is_err(), "{}: write_obj at offset len succeeded", what);
+        let after = env.xr.raw_read();
+        for i in 0..size {
+            let want = if i >= lo && i < lo + n { pat[i - lo] } else { before[i] };
+            if after[i] != want {
+                return Err(format!("{}: device byte {:#x} of the region is {:#04x}, expected {:#04x} (the accessor covers region[{:#x}..{:#x}])", what, i, after[i], want, lo, lo + len));
+            }
+        }
+        Ok(())
+    }
+
+    fn larg(t: &mut Tape, len: usize) -> usize {
+        t.size_near(len as u64) as usize
+    }
+
+    fn lclass(cx: &mut Cx, len: usize, a: usize, b: usize) {
+        let near = |x: usize| (x as i128 - len as i128).abs() <= 1;
+        if near(a) || near(b) || near(a.wrapping_add(b)) {
+            cx.nt("arg_within_1_of_boundary");
+        }
+        if a.checked_add(b).is_none() || a > isize::MAX as usize || b > isize::MAX as usize {
+            cx.nt("overflowing_arg");
+        }
+    }
+
+    fn lrefs<T: Pod, X: Dummy>(cur: &VolatileSlice<'_, ()>, lo: usize, env: &mut LEnv, depth: usize, t: &mut Tape, cx: &mut Cx, _x: X) -> Result<(), String> {
+        let plen = cur.len();
+        let sz = T::N;
+        if t.flag() {
+            let o = larg(t, plen.saturating_sub(sz));
+            note!(cx, "d{} get_ref::<{}>({:#x})", depth, T::NAME, o);
+            lclass(cx, plen, o, sz);
+            let fits = o as u128 + sz as u128 <= plen as u128;
+            match cur.get_ref::<T>(o) {
+                Ok(r) => {
+                    ensure!(fits, "get_ref::<{}>({:#x}) on {} bytes returned an accessor", T::NAME, o, plen);
+                    let raw = env.xr.raw_read();
+                    let v = r.load();
+                    ensure!(v.to_b()[..] == raw[lo + o..lo + o + sz], "get_ref::<{}>({:#x}).load() is not region bytes {:#x}..+{}", T::NAME, o, lo + o, sz);
+                    r.store(v);
+                    ensure!(r.ptr_guard().len() == sz, "get_ref::<{}>: guard length {}", T::NAME, r.ptr_guard().len());
+                    let s = r.to_slice();
+                    ensure!(s.len() == sz, "get_ref.to_slice length");
+                    lex(env, &s, lo + o, "get_ref.to_slice", t)?;
+                    lgo(&s, lo + o, env, depth + 1, t, cx)
+                }
+                Err(_) => {
+                    cx.label("refused");
+                    lgo(cur, lo, env, depth + 1, t, cx)
+                }
+            }
+        } else {
+            let o = larg(t, plen);
+            let avail = plen.saturating_sub(o.min(plen)) / sz;
+            let n = match t.below(4) {
+                0 => t.idx(avail + 1),
+                1 => avail + 1,
+                2 => larg(t, avail),
+                _ => (usize::MAX / sz).wrapping_add(t.idx(4)).wrapping_sub(1),
+            };
+            note!(cx, "d{} get_array_ref::<{}>({:#x}, {:#x})", depth, T::NAME, o, n);
+            lclass(cx, plen, o, n.saturating_mul(sz));
+            let fits = o as u128 + (n as u128) * (sz as u128) <= plen as u128;
+            match cur.get_array_ref::<T>(o, n) {
+                Ok(a) => {
+                    ensure!(fits, "get_array_ref::<{}>({:#x}, {:#x}) on {} bytes returned an accessor", T::NAME, o, n, plen);
+                    ensure!(a.len() == n, "array len");
+                    ensure!(a.ptr_guard().len() == n * sz, "array::<{}>({}) guard length {}", T::NAME, n, a.ptr_guard().len());
+                    let s = a.to_slice();
+                    ensure!(s.len() == n * sz, "array.to_slice length");
+                    if n > 0 {
+                        let i = if t.flag() { n - 1 } else { t.idx(n) };
+                        let raw = env.xr.raw_read();
+                        let v = a.load(i);
+                        let at = lo + o + i * sz;
+                        ensure!(v.to_b()[..] == raw[at..at + sz], "array::<{}>({:#x},{}).load({}) is not region bytes {:#x}..+{}", T::NAME, o, n, i, at, sz);
+                        a.store(i, v);
+                        let r = a.ref_at(i);
+                        let rs = r.to_slice();
+                        if t.flag() {
+                            lex(env, &rs, at, "array.ref_at.to_slice", t)?;
+                            return lgo(&rs, at, env, depth + 1, t, cx);
+                        }
+                    }
+                    lex(env, &s, lo + o, "get_array_ref.to_slice", t)?;
+                    lgo(&s, lo + o, env, depth + 1, t, cx)
+                }
+                Err(_) => {
+                    cx.label("refused");
+                    lgo(cur, lo, env, depth + 1, t, cx)
+                }
+            }
+        }
+    }
+
+    pub fn lgo(cur: &VolatileSlice<'_, ()>, lo: usize, env: &mut LEnv, depth: usize, t: &mut Tape, cx: &mut Cx) -> Result<(), String> {
+        env.depth_reached = env.depth_reached.max(depth);
+        if depth >= 8 || (t.exhausted() && depth > 0) {
+            return Ok(());
+        }
+        let plen = cur.len();
+        match t.below(8) {
+            0 => {
+                let o = larg(t, plen);
+                let c = larg(t, plen.saturating_sub(o.min(plen)));
+                note!(cx, "d{} subslice({:#x}, {:#x})", depth, o, c);
+                lclass(cx, plen, o, c);
+                match cur.subslice(o, c) {
+                    Ok(s) => {
+                        ensure!(o as u128 + c as u128 <= plen as u128, "subslice({:#x}, {:#x}) of {} bytes returned an accessor", o, c, plen);
+                        ensure!(s.len() == c, "subslice length");
+                        lex(env, &s, lo + o, "subslice", t)?;
+                        lgo(&s, lo + o, env, depth + 1, t, cx)
+                    }
+                    Err(_) => {
+                        cx.label("refused");
+                        lgo(cur, lo, env, depth + 1, t, cx)
+                    }
+                }
+            }
+            1 => {
+                let c = larg(t, plen);
+                note!(cx, "d{} offset({:#x})", depth, c);
+                lclass(cx, plen, c, 0);
+                match cur.offset(c) {
+                    Ok(s) => {
+                        ensure!(c <= plen, "offset({:#x}) of {} bytes returned an accessor", c, plen);
+                        ensure!(s.len() == plen - c, "offset({:#x}) of {} bytes has {} bytes", c, plen, s.len());
+                        lex(env, &s, lo + c, "offset", t)?;
+                        lgo(&s, lo + c, env, depth + 1, t, cx)
+                    }
+                    Err(_) => {
+                        cx.label("refused");
+                        lgo(cur, lo, env, depth + 1, t, cx)
+                    }
+                }
+            }
+            2 => {
+                let m = larg(t, plen);
+                note!(cx, "d{} split_at({:#x})", depth, m);
+                lclass(cx, plen, m, 0);
+                match cur.split_at(m) {
+                    Ok((a, b)) => {
+                        ensure!(m <= plen, "split_at({:#x}) of {} bytes returned accessors", m, plen);
+                        ensure!(a.len() == m && b.len() == plen - m, "split_at({:#x}) of {} bytes: halves of {} and {} bytes", m, plen, a.len(), b.len());
+                        lex(env, &a, lo, "split_at.0", t)?;
+                        lex(env, &b, lo + m, "split_at.1", t)?;
+                        if t.flag() {
+                            lgo(&a, lo, env, depth + 1, t, cx)
+                        } else {
+                            lgo(&b, lo + m, env, depth + 1, t, cx)
+                        }
+                    }
+                    Err(_) => {
+                        cx.label("refused");
+                        lgo(cur, lo, env, depth + 1, t, cx)
+                    }
+                }
+            }
+            3 => {
+                let o = larg(t, plen);
+                let c = larg(t, plen.saturating_sub(o.min(plen)));
+                note!(cx, "d{} get_slice({:#x}, {:#x})", depth, o, c);
+                lclass(cx, plen, o, c);
+                match cur.get_slice(o, c) {
+                    Ok(s) => {
+                        ensure!(o as u128 + c as u128 <= plen as u128, "get_slice({:#x}, {:#x}) of {} bytes returned an accessor", o, c, plen);
+                        ensure!(s.len() == c, "get_slice length");
+                        lex(env, &s, lo + o, "get_slice", t)?;
+                        lgo(&s, lo + o, env, depth + 1, t, cx)
+                    }
+                    Err(_) => {
+                        cx.label("refused");
+                        lgo(cur, lo, env, depth + 1, t, cx)
+                    }
+                }
+            }
+            4 => {
+                note!(cx, "d{} as_volatile_slice / ArrayRef::<u8>::from", depth);
+                let s = cur.as_volatile_slice();
+                ensure!(s.len() == plen, "as_volatile_slice length");
+                let a: VolatileArrayRef<'_, u8, ()> = VolatileArrayRef::from(s);
+                ensure!(a.len() == plen, "ArrayRef::from(slice).len() = {}, slice has {}", a.len(), plen);
+                let s2 = a.to_slice();
+                lex(env, &s2, lo, "ArrayRef::from(slice).to_slice", t)?;
+                lgo(&s2, lo, env, depth + 1, t, cx)
+            }
+            _ => {
+                let sel = t.idx(NPOD);
+                with_pod!(sel, lrefs, cur, lo, env, depth, t, cx, ())
+            }
+        }
+    }
+
+    pub fn run(t: &mut Tape, cx: &mut Cx) -> Result<(), String> {
+        reset();
+        let kind = t.pick(&[XKind::GrantOnDemand, XKind::GrantOnDemand, XKind::GrantOnDemand, XKind::GrantAdvance, XKind::Foreign, XKind::UnixFile, XKind::UnixAnon]);
+        let size = t.pick(&[1usize, 100, 4095, 4096, 4097, 8191, 8192, 12288]);
+        let base = t.pick(&[0u64, 0x1000, 0x5000]);
+        let xr = xbuild::<()>(kind, base, size)?;
+        note!(cx, "{:?} region {:#x}+{:#x}", kind, base, size);
+        if kind == XKind::GrantOnDemand {
+            cx.nt("on_demand_root");
+        }
+        let fill: Vec<u8> = (0..size).map(|i| ((i as u32).wrapping_mul(2654435761) >> 13) as u8).collect();
+        xr.raw_write(&fill);
+        let mut env = LEnv { xr: &xr, depth_reached: 0 };
+        for _ in 0..(1 + t.idx(2)) {
+            if t.flag() {
+                let o = larg(t, size);
+                let c = larg(t, size.saturating_sub(o.min(size)));
+                note!(cx, "region.get_slice({:#x}, {:#x})", o, c);
+                lclass(cx, size, o, c);
+                match xr.region.get_slice(MemoryRegionAddress(o as u64), c) {
+                    Ok(s) => {
+                        ensure!(o as u128 + c as u128 <= size as u128, "region({:#x} bytes).get_slice({:#x},{:#x}) returned an accessor", size, o, c);
+                        ensure!(s.len() == c, "region.get_slice length");
+                        lex(&env, &s, o, "region.get_slice", t)?;
+                        lgo(&s, o, &mut env, 1, t, cx)?;
+                    }
+                    Err(_) => cx.label("refused"),
+                }
+            } else {
+                let s = xr.region.as_volatile_slice().map_err(|e| format!("region.as_volatile_slice: {:?}", e))?;
+                ensure!(s.len() == size, "region.as_volatile_slice() has {} bytes, the region {}", s.len(), size);
+                note!(cx, "region.as_volatile_slice()");
+                lgo(&s, 0, &mut env, 1, t, cx)?;
+            }
+        }
+        if env.depth_reached >= 2 {
+            cx.nt("chain_depth_ge_2");
+        }
+        if env.depth_reached >= 4 {
+            cx.label("chain_depth_ge_4");
+        }
+        Ok(())
+    }
+}
+
+#[cfg(feature = "xen")]
+fn run_logical(t: &mut Tape, cx: &mut Cx) -> Result<(), String> {
+    logical::run(t, cx)
+}
+
+#[cfg(not(feature = "xen"))]
+fn run_logical(_t: &mut Tape, _cx: &mut Cx) -> Result<(), String> {
+    Ok(())
+}
+
 fn region_body(mem: &vm_memory::GuestMemoryMmap<()>, lay: &Layout, t: &mut Tape, cx: &mut Cx) -> Result<(), String> {
     let pts = lay.points();
     for _ in 0..(1 + t.idx(3)) {
@@ -608,6 +898,7 @@ pub fn property() -> Property {
             SubCheck { name: "guard_page", builds: &[Build::Std, Build::Plain], kind: Kind::Random { quick: 20_000, thorough: 1_000_000, max_words: 64 }, run: run_guard },
             SubCheck { name: "region", builds: &[Build::Std, Build::Xen], kind: Kind::Random { quick: 10_000, thorough: 400_000, max_words: 96 }, run: run_region },
             SubCheck { name: "xen_region", builds: &[Build::Xen], kind: Kind::Random { quick: 4_000, thorough: 200_000, max_words: 96 }, run: run_region_xen },
+            SubCheck { name: "xen_logical_chain", builds: &[Build::Xen], kind: Kind::Random { quick: 3_000, thorough: 150_000, max_words: 96 }, run: run_logical },
         ],
     }
 }
